@@ -400,6 +400,8 @@ def worker(job):
     for n in range(job['n']):
         r0 = rng.random()
         case = warcwork.gen_overlap_case(rng) if r0 < 0.12 else warcwork.gen_redirect_case(rng) if r0 < 0.2 else warcwork.gen_case(rng)
+        if prop == 'C05' and 0.2 <= r0 < 0.23:
+            case = warcwork.gen_coprocessor_case(rng)
         if prop == 'C07':
             case['config']['cdx'] = True
             if case['seq']:
@@ -415,7 +417,14 @@ def worker(job):
             case.pop('stall_last_at', None)
             case['config']['dedup'] = False       # (the dedup seeding presumes which message is the response)
             part.count('cases_ending_with_an_interim_response')
-        if case.get('redirects'):
+        if case.get('coprocessor'):
+            obs = warcwork.run_case(case)
+            part.evaluations += 1
+            part.count('cases_with_coprocessor_records')
+            if obs.get('error'):
+                part.inconclusive.append('coprocessor session failed: ' + obs['error'])
+            ORACLES[prop](obs, part, case)
+        elif case.get('redirects'):
             obs = warcwork.run_case(case)
             part.evaluations += 1
             part.count('cases_with_followed_redirects')
